@@ -110,7 +110,7 @@ P["C16"] = {
     "outside": "build / remove / re-build histories, store/load of removed rules (other tiers)",
     "runs": [tierA(3, 2, fDeleted, QT), fetchA(4, fDeleted, QT), tierA(4, 2, fDeleted | fRetract, T)]}
 
-TIERC_H = [["zztier", "harness/zztier"], ["ast", "harness/ast"]]
+TIERC_H = [["zztier", "harness/zztier"], ["ast", "harness/ast"], ["model", "harness/model"]]
 
 
 def tierC(entry, tmpl, extra, tiers, reach, bounds, **kw):
@@ -182,6 +182,11 @@ def memoStep(setname, state, tiers):
             "bounds": "inductive memo step on every template of set '%s': arbitrary (symbolic) facts, memo state '%s' consistent with them, ONE arbitrary rule's action list; afterwards every node still marked Evaluated holds the memo-free value (invariant INV, which implies C01/C02 in every later cycle: no run-length bound for these templates)" % (setname, sn)}
 
 
+TB_SETS["json"] = ["j_basic"]
+for pid in ("C01", "C02"):
+    P[pid]["runs"] += [memoStep("json", 0, QT), tierB("json", 2, 0, T), tierB("json", 3, 1, T)]
+    P[pid]["bounds"] += "; JSON facts: template j_basic (member, nested member, array element, string and bool members, mixed with a Go fact) on a decoded JSON tree with symbolic leaves"
+    P[pid]["outside"] = P[pid]["outside"].replace("; JSON facts", "")
 for pid in ("C01", "C02", "C13"):
     P[pid]["runs"] += [memoStep("memo", 0, QT), memoStep("memo", 1, T), memoStep("memo", 2, T), memoStep("memo", 3, T)]
     P[pid]["bounds"] += "; inductive memo step (INV preserved by every rule's action list from an arbitrary fact state and a filled / empty / alternating memo) - removes the run-length bound for the template family"
@@ -345,6 +350,10 @@ P["C05"] = {
              {"name": "quote-roundtrip-1", "pkgdir": "antlr", "harness": [["antlr", "harness/antlr"], ["pkg", "harness/pkg"]], "entry": "VerifQuoteRoundTrip", "args": [1], "tiers": QT,
               "init": ["strconv", "unicode/utf8"], "require_reach": ["c18:quoted"], "extra_label_prefixes": ["C18:string-constant"], "quick": {"max_values": 300}, "thorough": {"max_values": 300},
               "bounds": "string literal decoding (unquoteString) of the quoted form of every 1-byte string"}]}
+
+P["C04"]["runs"].append(tierB("json", 2, 0, T))
+P["C04"]["bounds"] = P["C04"]["bounds"].replace("22 assignment cases", "28 assignment cases (6 on JSON members)")
+P["C04"]["outside"] = "values outside the destination range; map entries of another kind than the element type (the property excludes them); rule sets outside the family; JSON facts are decoded trees with symbolic leaves (json.Unmarshal itself is native)"
 
 json.dump({"properties": P}, open(os.path.join(V, "checks.json"), "w"), indent=1)
 print("properties:", sorted(P))
